@@ -148,7 +148,7 @@ def _run_base(ctx):
 
 
 def run(ctx):
-    ctx.rule('R15.6', 'where Python re-sorts diff entries while applying decisions / flattening string diffs it orders them by key alone (stable), like TS sortByKey/stableSort and TS applyDecisions, which has no re-combination step', floor=2)
+    ctx.rule('R15.6', 'where Python re-sorts diff entries while applying decisions / flattening string diffs it orders them by key alone (stable), like TS sortByKey/stableSort and TS applyDecisions, which has no re-combination step', floor=1)
     ctx.rule('R15.5', 'the "cleared value" helper maps every JSON kind to the same result kind on both sides (exhaustive over null/boolean/number/string/array/object)', floor=6)
     _run_base(ctx)
     from ..tskind import ts_kind_function, py_kind_function, JSON_KINDS
